@@ -69,7 +69,7 @@ def run(ctx):
     cid = 700000
     for variant in gen.VARIANTS:
         for j in range(ctx.budget(3, 40)):
-            line, m = cli.make_case(rng.fork('w%d' % cid), cid, wd, variant=variant, defaults=(j == 0 and ctx.tier == 'thorough'))
+            line, m = cli.make_case(rng.fork('w%d' % cid), cid, wd, variant=variant, defaults=(j == 0))
             lines.append(line)
             metas.append(m)
             cid += 1
